@@ -412,7 +412,15 @@ def iterjoin(left, right, lkey, rkey, leftouter=False, rightouter=False,
 
         # pick off initial row groups
         lkval, lrowgrp = next(lgit)
-        rkval, rrowgrp = next(rgit)
+        try:
+            rkval, rrowgrp = next(rgit)
+        except StopIteration:
+            # no rows on the right, so put the left group back to be yielded
+            # with the rest (its key may be None, which cannot be told apart
+            # from the initial value of rkval)
+            lgit = itertools.chain([(lkval, lrowgrp)], lgit)
+            lkval = rkval
+            raise
 
         while True:
             if lkval < rkval:
@@ -627,7 +635,15 @@ def iterantijoin(left, right, lkey, rkey):
 
         # pick off initial row groups
         lkval, lrowgrp = next(lgit)
-        rkval, _ = next(rgit)
+        try:
+            rkval, _ = next(rgit)
+        except StopIteration:
+            # no rows on the right, so put the left group back to be yielded
+            # with the rest (its key may be None, which cannot be told apart
+            # from the initial value of rkval)
+            lgit = itertools.chain([(lkval, lrowgrp)], lgit)
+            lkval = rkval
+            raise
 
         while True:
             if lkval < rkval:
